@@ -303,6 +303,12 @@ SigOf(pw) ==
                   IN c \in DOMAIN ctrs /\ c \in DOMAIN ctrs'
                      /\ (RsvClass(ctrs[c]) # RsvClass(ctrs'[c]) \/ world.prefershared # world'.prefershared)
             THEN "eligibility-changed-by-new-configuration"
+       \* F-C07-1 at policy level: the allocator only examines masks that are some request's zone; overlapping zones
+       \* (e.g. two NUMA nodes each paired with the same PMEM node) can jointly oversubscribe their union
+       ELSE IF pred = "Inv_NoZoneOvercommit" THEN
+            (IF w \in {MemZone(mem')[c] : c \in DOMAIN MemZone(mem')} THEN "assigned-zone-after-" \o StepSig
+             ELSE IF BadAssigned(lay, MemReq(mem'), MemZone(mem')) = {} THEN "union-of-overlapping-zones"
+             ELSE "superset-of-overcommitted-zone")
        ELSE IF pred = "Inv_LiveHoldsGrant" THEN (IF E.err THEN "left-by-failed-" \o E.ev ELSE "after-" \o StepSig)
        ELSE IF pred \in {"Inv_RuntimeEqualsCache", "Inv_NothingPending"} THEN
             (IF E.err
